@@ -72,6 +72,11 @@ def gen(seed, run, tier='quick'):
     while len(ops) < n_ops:
         k = rng.choices(kinds, weights)[0]
         ops.append([k] + [rng.randrange(1 << 16) for _ in range(12)])
+    if rng.random() < 0.02 and not fault_free:
+        # a table-driven declaration of very many units for two types
+        # (bounded look-up memos fill up and evict), then the same table
+        # once more with the type column mixed up - all of it rejected
+        ops.append(['bulk_terms', rng.choice([40, 150])])
     return {'cfg': {'variant': variant, 'fault_free': fault_free,
                     'amount': rng.choice(['3', '7/3', '1/7', '12.5',
                                           '1000000'])},
@@ -353,6 +358,52 @@ def execute(h):
     try:
         sweep(-1, 0)
         for i, op in enumerate(ops):
+            if op[0] == 'bulk_terms':
+                refs = [t for t in model.types_with_ref()
+                        if model.types[t]['base'] and
+                        model.types[t]['quantum'] is None and
+                        not model.types[t]['catalogue']][:2]
+                if len(refs) < 2:
+                    log.append([i, op[0], 'noop'])
+                    continue
+                made = 0
+                names = []
+                # phase 0: scaled units, alternating between the two types
+                for j in range(op[1]):
+                    tn = refs[j % 2]
+                    act = {'a': 'scaled_unit', 'type': tn,
+                           'sym': f'b{i}_{j}',
+                           'parent': model.types[tn]['ref'],
+                           'k': {'t': 'int', 'v': str(j + 2)}, 'via': 'rmul',
+                           'expect': 'accept'}
+                    out, info = decl.perform(env, act)
+                    if out == 'ok':
+                        decl.apply(model, act, info)
+                        names.append((act['sym'], j % 2))
+                # phase 1: an alias for each, defined by a term of it
+                # (every definition is looked up: that many distinct terms);
+                # phase 2: the same definitions with the types mixed up
+                for rnd in (0, 1):
+                    for j, (sym, side) in enumerate(names):
+                        act = {'a': 'term_unit',
+                               'type': refs[(side + rnd) % 2],
+                               'sym': f'a{i}_{rnd}_{j}',
+                               'items': [[sym, 1]], 'k': None, 'nums': [],
+                               'spell': 0,
+                               'expect': 'reject' if rnd else 'accept',
+                               'bad': 'wrong_dimension'}
+                        out, info = decl.perform(env, act)
+                        if rnd and out == 'ok':
+                            violate('decl', 'accepted_invalid', i,
+                                    action=act, nth=j)
+                        if not rnd and out == 'ok':
+                            decl.apply(model, act, info)
+                            made += 1
+                bump(probes, 'table_driven_declarations', made)
+                bump(faults, 'rejected:wrong_dimension', op[1])
+                log.append([i, op[0], made])
+                sweep(i, i)
+                continue
             act = decl.resolve(model, op)
             if act is None:
                 log.append([i, op[0], 'noop'])
